@@ -15,6 +15,7 @@ from rfbreal import Cfg
 
 from vncdotool import loggingproxy as lp
 
+EXTRA_VO = ["Proofs/RecorderDispatchTie.vo"]
 TRUSTED_BASE = ["Model/Recorder.v (viewer-side parser) and Model/Rfb.v (the logging client is the library client started at "
                 "ServerInit with the proxy factory's options) hand-written; TYPE_LEN, message numbers, struct formats regenerated",
                 "twisted.protocols.portforward is trusted to write what it is handed (in-memory transports stand in for TCP; "
